@@ -1554,3 +1554,559 @@ func polySub(a, b *Poly) *Poly {
 	d.addScaled(b, -1)
 	return d
 }
+
+// P03-entry-line — the one existing line that stop / pause rewrite is the line that carries the
+// entry's value: lastLinePointer - countLines(entries[i:]), where the slice runs from the entry
+// itself to the END of the record (every later entry is stepped over with all its summary lines).
+func ruleP03EntryLine(p *Prog, r *Report) {
+	const rule = "P03-entry-line"
+	cl := p.fn("klog/parser/reconciling", "countLines")
+	if !r.anchorFn(rule, cl, "reconciling.countLines") {
+		return
+	}
+	// countLines itself: the sum of len(e.Summary()) over every element
+	okSum := false
+	eachInstr(cl, func(in ssa.Instruction) {
+		if bo, ok := in.(*ssa.BinOp); ok && bo.Op == token.ADD {
+			for _, side := range []ssa.Value{bo.X, bo.Y} {
+				if c, _ := callOf(strip(side)); c != nil {
+					if b, isB := c.Common().Value.(*ssa.Builtin); isB && b.Name() == "len" {
+						if n, _, _, _ := methodCall(c.Common().Args[0]); n == "Summary" {
+							if good, _ := onlyLoopGuards(bo.Block()); good {
+								okSum = true
+							}
+						}
+					}
+				}
+			}
+		}
+	})
+	r.check(okSum, rule, "countLines", p.pos(cl.Pos()), "countLines adds len(e.Summary()) for every entry", "countLines is no longer the unconditional sum of len(e.Summary())")
+	for _, name := range []string{"CloseOpenRange", "ExtendPause"} {
+		f := p.method("klog/parser/reconciling", "Reconciler", name)
+		if !r.anchorFn(rule, f, "(*Reconciler)."+name) {
+			continue
+		}
+		n := 0
+		bad := ""
+		for _, g := range withAnons(f) {
+			eachInstr(g, func(in ssa.Instruction) {
+				ia, ok := in.(*ssa.IndexAddr)
+				if !ok {
+					return
+				}
+				if _, fld := fieldLoad(ia.X); fld != "lines" {
+					return
+				}
+				n++
+				pl := polyOf(ia.Index)
+				var llp, cnt int64
+				var cntCall ssa.Value
+				other := false
+				for k, c := range pl.Terms {
+					switch {
+					case strings.HasSuffix(k, ".lastLinePointer"):
+						llp = c
+					case strings.HasPrefix(k, "call:countLines("):
+						cnt = c
+						cntCall = pl.leafV[k]
+					default:
+						other = true
+					}
+				}
+				if other || llp != 1 || cnt != -1 || pl.C != 0 {
+					bad = "the line index is " + pl.String() + " at " + p.instrPos(ia)
+					return
+				}
+				c, _ := callOf(strip(cntCall))
+				if c == nil {
+					bad = "countLines call not found"
+					return
+				}
+				sl, isSl := strip(c.Common().Args[0]).(*ssa.Slice)
+				if !isSl || sl.High != nil || sl.Low == nil {
+					bad = "countLines is not given entries[i:] (from the entry to the end of the record) at " + p.instrPos(c)
+					return
+				}
+				if nm, _, _, _ := methodCall(sl.X); nm != "Entries" {
+					bad = "countLines is not given a slice of Record.Entries()"
+				}
+			})
+		}
+		r.check(bad == "" && n > 0, rule, name, p.pos(f.Pos()), fmt.Sprintf("%d line accesses, all at lastLinePointer - countLines(entries[i:])", n), name+" does not address the entry's value line as lastLinePointer - countLines(entries[i:]): "+bad)
+	}
+}
+
+// P05-toint — the exit status of a failure is never 0: Code.ToInt is the numeric value of the
+// code (all code constants are >= 1, P05-exit), or a table that has a non-zero entry for EVERY
+// code constant.
+func ruleP05ToInt(p *Prog, r *Report) {
+	const rule = "P05-toint"
+	f := p.method("klog/app", "Code", "ToInt")
+	if !r.anchorFn(rule, f, "app.Code.ToInt") {
+		return
+	}
+	codeT := p.namedType("klog/app", "Code")
+	pk := p.pkg("klog/app")
+	if codeT == nil || pk == nil {
+		r.undecided(rule, "codes", "-", "type app.Code not found")
+		return
+	}
+	var consts []int64
+	names := map[int64]string{}
+	sc := pk.Types.Scope()
+	for _, name := range sc.Names() {
+		if c, ok := sc.Lookup(name).(*types.Const); ok && types.Identical(c.Type(), codeT) {
+			v, _ := constInt64(c)
+			consts = append(consts, v)
+			names[v] = name
+		}
+	}
+	recv := f.Params[0]
+	for i, ret := range returnsOf(f) {
+		key := fmt.Sprintf("return#%d", i)
+		v := ret.Results[0]
+		// int(c)
+		x := v
+		for {
+			if cv, ok := x.(*ssa.Convert); ok {
+				x = cv.X
+				continue
+			}
+			if ct, ok := x.(*ssa.ChangeType); ok {
+				x = ct.X
+				continue
+			}
+			break
+		}
+		if x == ssa.Value(recv) {
+			r.ok(rule, key, p.instrPos(ret), "the numeric value of the code")
+			continue
+		}
+		// table[c] with a package-level map literal
+		if lk, ok := strip(v).(*ssa.Lookup); ok && strip(lk.Index) == ssa.Value(recv) {
+			if u, isU := strip(lk.X).(*ssa.UnOp); isU && u.Op == token.MUL {
+				if g, isG := u.X.(*ssa.Global); isG {
+					entries := map[int64]int64{}
+					if init := g.Pkg.Func("init"); init != nil {
+						eachInstr(init, func(in ssa.Instruction) {
+							if mu, isMU := in.(*ssa.MapUpdate); isMU {
+								k, ok1 := constInt(mu.Key)
+								val, ok2 := constInt(mu.Value)
+								if ok1 && ok2 && mapOfGlobal(mu.Map, g) {
+									entries[k] = val
+								}
+							}
+						})
+					}
+					missing := ""
+					for _, c := range consts {
+						if val, has := entries[c]; !has || val == 0 {
+							missing += " " + names[c]
+						}
+					}
+					r.check(missing == "", rule, key, p.instrPos(ret), "a table with a non-zero status for every code", "the exit-status table has no non-zero entry for:"+missing+" — a failure with that code exits with status 0")
+					continue
+				}
+			}
+		}
+		r.undecided(rule, key, p.instrPos(ret), "ToInt is neither the numeric value of the code nor a lookup in a package-level table")
+	}
+}
+
+func constInt64(c *types.Const) (int64, bool) {
+	s := c.Val().ExactString()
+	var v int64
+	_, err := fmt.Sscan(s, &v)
+	return v, err == nil
+}
+
+// mapOfGlobal: m is the map stored into global g in the package initialiser.
+func mapOfGlobal(m ssa.Value, g *ssa.Global) bool {
+	mk, ok := strip(m).(*ssa.MakeMap)
+	if !ok {
+		return false
+	}
+	for _, ref := range *mk.Referrers() {
+		if st, isSt := ref.(*ssa.Store); isSt && st.Addr == ssa.Value(g) {
+			return true
+		}
+	}
+	return false
+}
+
+// P07-tail — a worker never regards the last block of its batch as finished (the next batch may
+// continue it): whatever it keeps of the values, blocks and errors of mapParse is x[:len(x)-1].
+// P07-input:serial — the serial engine parses exactly the text it is given (so both engines see
+// the same text).
+func ruleP07Tail(p *Prog, r *Report) {
+	const rule = "P07-tail"
+	parse, async, ok := p.parallelFns(r, rule)
+	if !ok {
+		return
+	}
+	var work *ssa.Function
+	for _, c := range callsTo(parse, async) {
+		work = funcLiteral(c.Common().Args[len(c.Common().Args)-1])
+	}
+	if work == nil {
+		r.undecided(rule, "work", p.pos(parse.Pos()), "work function literal not found")
+		return
+	}
+	n := 0
+	eachInstr(work, func(in ssa.Instruction) {
+		st, ok := in.(*ssa.Store)
+		if !ok {
+			return
+		}
+		fa, ok := st.Addr.(*ssa.FieldAddr)
+		if !ok || typeNameOf(fa.X.Type()) != "batchResult" {
+			return
+		}
+		fld := fieldName(fa)
+		if fld != "values" && fld != "blocks" && fld != "errs" {
+			return
+		}
+		if isNilConst(st.Val) {
+			return
+		}
+		n++
+		good := false
+		if sl, isSl := strip(st.Val).(*ssa.Slice); isSl && sl.Low == nil && sl.High != nil {
+			if bo, isBo := strip(sl.High).(*ssa.BinOp); isBo && bo.Op == token.SUB {
+				if k, isK := constInt(bo.Y); isK && k == 1 {
+					if lc, _ := callOf(strip(bo.X)); lc != nil {
+						if bi, isB := lc.Common().Value.(*ssa.Builtin); isB && bi.Name() == "len" && sameValue(lc.Common().Args[0], sl.X) {
+							good = true
+						}
+					}
+				}
+			}
+			if mc, _ := callOf(strip(sl.X)); mc == nil || fnBase(staticCalleeOrNil(mc)) != "mapParse" {
+				good = false
+			}
+		}
+		r.check(good, rule, fmt.Sprintf("%s#%d", fld, n), p.instrPos(st), "keeps all but the last element of what mapParse returned", "a worker keeps the last "+fld+" element of its batch as if the block were finished: a record cut by the batch boundary is parsed in two pieces (or its trailing blank lines go to the wrong block)")
+	})
+	if n < 3 {
+		r.undecided(rule, "floor", p.pos(work.Pos()), "expected assignments of values, blocks and errs in the worker, found %d", n)
+	}
+	// serial entry point
+	sp := p.method("klog/parser/engine", "SerialParser", "Parse")
+	mp := p.method("klog/parser/engine", "SerialParser", "mapParse")
+	if r.anchorFn(rule, sp, "SerialParser.Parse") && r.anchorFn(rule, mp, "SerialParser.mapParse") {
+		cs := callsTo(sp, mp)
+		okIn := len(cs) == 1
+		if okIn {
+			a := cs[0].Common().Args
+			okIn = strip(a[len(a)-1]) == ssa.Value(sp.Params[len(sp.Params)-1])
+		}
+		r.check(okIn, rule, "input:serial", p.pos(sp.Pos()), "the serial engine parses the text it is given", "the serial engine alters the text before parsing it (the parallel engine does not: the engines disagree on such input)")
+	}
+}
+
+// P14-agg-key — the tag statistics are keyed by name AND value without collisions: either two
+// levels (name, then value) or one key with the "=" separator in between.
+func ruleP14AggKey(p *Prog, r *Report) {
+	const rule = "P14-agg-key"
+	put := p.method("klog/service", "totalByTag", "put")
+	if !r.anchorFn(rule, put, "service.totalByTag.put") {
+		return
+	}
+	tag := put.Params[1]
+	n := 0
+	bad := ""
+	descr := func(k ssa.Value) string {
+		var leaves []ssa.Value
+		catLeaves(k, &leaves, 0)
+		var parts []string
+		for _, l := range leaves {
+			if s, isS := constString(l); isS {
+				parts = append(parts, fmt.Sprintf("%q", s))
+				continue
+			}
+			if nm, rv, _, _ := methodCall(l); rv != nil && strip(rv) == ssa.Value(tag) {
+				parts = append(parts, nm)
+				continue
+			}
+			parts = append(parts, "?")
+		}
+		return strings.Join(parts, "+")
+	}
+	eachInstr(put, func(in ssa.Instruction) {
+		var key ssa.Value
+		switch x := in.(type) {
+		case *ssa.Lookup:
+			if _, isMap := x.X.Type().Underlying().(*types.Map); isMap {
+				key = x.Index
+			}
+		case *ssa.MapUpdate:
+			key = x.Key
+		}
+		if key == nil {
+			return
+		}
+		n++
+		d := descr(derefFlow(key))
+		switch d {
+		case "Name", "Value", `Name+"="+Value`:
+		default:
+			bad = d + " at " + p.instrPos(in)
+		}
+	})
+	r.check(bad == "" && n > 0, rule, "key", p.pos(put.Pos()), "statistics are keyed by name, then value (or name=value)", "the tag statistics are keyed by "+bad+": different tags can share a key (#ab and #a=b), their totals merge")
+}
+
+// P12-populate — each component of a period hash is written at the bit offset that was current
+// BEFORE its own width is added: the shift amount is a load of bitsConsumed that no store to
+// bitsConsumed precedes.
+func ruleP12Populate(p *Prog, r *Report) {
+	const rule = "P12-populate"
+	pop := p.method("klog/service/period", "bitMask", "populate")
+	if !r.anchorFn(rule, pop, "period.bitMask.populate") {
+		return
+	}
+	var stores []*ssa.Store
+	eachInstr(pop, func(in ssa.Instruction) {
+		if st, ok := in.(*ssa.Store); ok {
+			if fa, isFA := st.Addr.(*ssa.FieldAddr); isFA && fieldName(fa) == "bitsConsumed" {
+				stores = append(stores, st)
+			}
+		}
+	})
+	n := 0
+	eachInstr(pop, func(in ssa.Instruction) {
+		bo, ok := in.(*ssa.BinOp)
+		if !ok || bo.Op != token.SHL {
+			return
+		}
+		if strip(bo.X) != ssa.Value(pop.Params[1]) {
+			if cv, isCv := strip(bo.X).(*ssa.Convert); !isCv || strip(cv.X) != ssa.Value(pop.Params[1]) {
+				return
+			}
+		}
+		n++
+		ld, isLd := strip(bo.Y).(*ssa.UnOp)
+		if cv, isCv := strip(bo.Y).(*ssa.Convert); isCv {
+			ld, isLd = strip(cv.X).(*ssa.UnOp)
+		}
+		good := false
+		if isLd && ld.Op == token.MUL {
+			if fa, isFA := ld.X.(*ssa.FieldAddr); isFA && fieldName(fa) == "bitsConsumed" {
+				good = true
+				for _, st := range stores {
+					if (st.Block() == ld.Block() && instrIndex(st) < instrIndex(ld)) || (st.Block() != ld.Block() && st.Block().Dominates(ld.Block())) {
+						good = false
+					}
+				}
+			}
+		}
+		r.check(good, rule, "shift", p.instrPos(bo), "the value is shifted by the offset before its own width is added", "the value is shifted by an offset that already includes its own width: components land one slot too high and the leading component (the year) is truncated, so different periods share a hash")
+	})
+	if n != 1 {
+		r.undecided(rule, "shift", p.pos(pop.Pos()), "expected one shift of the value in populate, found %d", n)
+	}
+}
+
+// P17-one-instant — date and time of one command come from ONE reading of the clock: wherever a
+// command asks its argument group for both the date (AtDate) and the time (AtTime), both calls are
+// given the same `now` value. Two readings can straddle midnight: today's date with a time that
+// belongs to tomorrow (or the reverse), i.e. an entry almost 24 hours off.
+func ruleP17OneInstant(p *Prog, r *Report) {
+	const rule = "P17-one-instant"
+	n := 0
+	for _, f := range p.srcFns {
+		if !strings.HasPrefix(pkgPathOfFn(f), modPath+"/klog/app/cli") || f.Parent() != nil {
+			continue
+		}
+		var dates, times []ssa.CallInstruction
+		for _, g := range withAnons(f) {
+			eachInstr(g, func(in ssa.Instruction) {
+				c, ok := in.(ssa.CallInstruction)
+				if !ok {
+					return
+				}
+				callee := staticCallee(c)
+				if callee == nil || callee.Signature.Recv() == nil || pkgPathOfFn(callee) != modPath+"/klog/app/cli/util" {
+					return
+				}
+				switch callee.Name() {
+				case "AtDate":
+					dates = append(dates, c)
+				case "AtTime":
+					times = append(times, c)
+				}
+			})
+		}
+		if len(dates) == 0 || len(times) == 0 {
+			continue
+		}
+		n++
+		nowOf := func(c ssa.CallInstruction) ssa.Value { return strip(deref(c.Common().Args[1])) }
+		base := nowOf(dates[0])
+		same := true
+		for _, c := range append(dates, times...) {
+			if nowOf(c) != base {
+				same = false
+			}
+		}
+		_, isCall := base.(*ssa.Call)
+		r.check(same && isCall, rule, fnName(f), p.pos(f.Pos()), fmt.Sprintf("AtDate (%d) and AtTime (%d) are given one and the same clock reading", len(dates), len(times)), "AtDate and AtTime are given different readings of the clock: a command run across midnight combines one day's date with the other day's time")
+	}
+	if n < 3 {
+		r.undecided(rule, "floor", "-", "expected start, stop and switch to ask for date and time (found %d such commands)", n)
+	}
+}
+
+// P20-only-json — `klog json` writes ONE document to its output and nothing else: besides the
+// direct ctx.Print of ToJson(...), Json.Run calls no function of the module through which
+// Context.Print can be reached (warnings, hints, totals … would follow or precede the document).
+func ruleP20OnlyJson(p *Prog, r *Report) {
+	const rule = "P20-only-json"
+	run := p.method("klog/app/cli", "Json", "Run")
+	if !r.anchorFn(rule, run, "cli.Json.Run") {
+		return
+	}
+	printsIn := func(g *ssa.Function) string {
+		at := ""
+		eachInstr(g, func(in ssa.Instruction) {
+			if c, ok := in.(ssa.CallInstruction); ok && c.Common().IsInvoke() && c.Common().Method.Name() == "Print" && typeNameOf(c.Common().Value.Type()) == "Context" {
+				at = p.instrPos(c)
+			}
+		})
+		return at
+	}
+	n := 0
+	for _, g := range withAnons(run) {
+		eachInstr(g, func(in ssa.Instruction) {
+			c, ok := in.(ssa.CallInstruction)
+			if !ok {
+				return
+			}
+			callee := staticCallee(c)
+			if callee == nil || !p.inMod(callee) || len(callee.Blocks) == 0 {
+				return
+			}
+			n++
+			rc := p.reach([]*ssa.Function{callee}, nil, nil)
+			for _, h := range rc.moduleFuncs() {
+				if at := printsIn(h); at != "" {
+					r.bad(rule, "call:"+fnName(callee), p.instrPos(c), "Json.Run calls %s, through which text is printed (%s, via %s): the output is no longer one JSON document", fnName(callee), at, strings.Join(rc.path(h), " -> "))
+					return
+				}
+			}
+		})
+	}
+	r.check(n > 0, rule, "calls", p.pos(run.Pos()), fmt.Sprintf("none of the %d module functions called by Json.Run can print", n), "no calls found in Json.Run")
+}
+
+// P20-no-edit — the JSON text is what the encoder produced: package parser/json never edits
+// encoded text as a string (no Replace/ReplaceAll/Replacer/regexp substitution); only the
+// trailing newline of the encoder may be cut off.
+func ruleP20NoEdit(p *Prog, r *Report) {
+	const rule = "P20-no-edit"
+	forbidden := map[string]bool{
+		"strings.Replace": true, "strings.ReplaceAll": true, "(*strings.Replacer).Replace": true, "strings.NewReplacer": true,
+		"(*regexp.Regexp).ReplaceAllString": true, "(*regexp.Regexp).ReplaceAllStringFunc": true, "(*regexp.Regexp).ReplaceAllLiteralString": true,
+		"bytes.Replace": true, "bytes.ReplaceAll": true, "strings.Map": true, "html.UnescapeString": true, "strconv.Unquote": true,
+	}
+	n, nf := 0, 0
+	for _, f := range p.srcFns {
+		if pkgPathOfFn(f) != modPath+"/klog/parser/json" {
+			continue
+		}
+		nf++
+		eachInstr(f, func(in ssa.Instruction) {
+			c, ok := in.(ssa.CallInstruction)
+			if !ok {
+				return
+			}
+			if callee := staticCallee(c); callee != nil && forbidden[callee.String()] {
+				n++
+				r.bad(rule, fnName(f)+":"+callee.Name(), p.instrPos(c), "%s edits text in the JSON serialiser with %s: an edit of encoded JSON can produce an invalid escape or change a value", fnName(f), callee.String())
+			}
+		})
+	}
+	if nf == 0 {
+		r.undecided(rule, "package", "-", "package klog/parser/json not found")
+		return
+	}
+	if n == 0 {
+		r.ok(rule, "no-string-surgery", "-", "%d functions of parser/json, none edits encoded text", nf)
+	}
+}
+
+// P18-print-verbatim — print --with-totals puts the serialised line (which already carries its
+// styling) into the output by concatenation only; the assembled text is not passed through any
+// function (trimming, replacing, padding by content …), whose effect would depend on whether the
+// line ends in an escape sequence or in the text itself.
+func ruleP18PrintVerbatim(p *Prog, r *Report) {
+	const rule = "P18-print-verbatim"
+	f := p.fn("klog/app/cli", "printWithDurations")
+	if !r.anchorFn(rule, f, "cli.printWithDurations") {
+		return
+	}
+	var seeds []ssa.Value
+	for _, g := range withAnons(f) {
+		eachInstr(g, func(in ssa.Instruction) {
+			if u, ok := in.(*ssa.UnOp); ok && u.Op == token.MUL {
+				if fa, isFA := u.X.(*ssa.FieldAddr); isFA && fieldName(fa) == "Text" && typeNameOf(derefType(fa.X.Type())) == "Line" {
+					seeds = append(seeds, u)
+				}
+			}
+			if fl, ok := in.(*ssa.Field); ok {
+				if st, isSt := fl.X.Type().Underlying().(*types.Struct); isSt && st.Field(fl.Field).Name() == "Text" && typeNameOf(fl.X.Type()) == "Line" {
+					seeds = append(seeds, fl)
+				}
+			}
+		})
+	}
+	if len(seeds) == 0 {
+		r.undecided(rule, "text", p.pos(f.Pos()), "the line text is not read in printWithDurations")
+		return
+	}
+	seen := map[ssa.Value]bool{}
+	work := append([]ssa.Value{}, seeds...)
+	bad := ""
+	for len(work) > 0 && bad == "" {
+		v := work[0]
+		work = work[1:]
+		if seen[v] {
+			continue
+		}
+		seen[v] = true
+		refs := v.Referrers()
+		if refs == nil {
+			continue
+		}
+		for _, ref := range *refs {
+			switch x := ref.(type) {
+			case *ssa.BinOp:
+				if x.Op == token.ADD {
+					work = append(work, x)
+				}
+			case *ssa.Phi:
+				work = append(work, x)
+			case *ssa.Store:
+				if x.Val != v {
+					continue
+				}
+				cell := cellOf(x.Addr)
+				if cell == nil {
+					continue
+				}
+				// every load of that variable, here and in the closures
+				for _, g := range withAnons(f) {
+					eachInstr(g, func(in ssa.Instruction) {
+						if u, ok := in.(*ssa.UnOp); ok && u.Op == token.MUL && cellOf(u.X) == cell {
+							work = append(work, u)
+						}
+					})
+				}
+			case ssa.CallInstruction:
+				bad = calleeName(x) + " at " + p.instrPos(x)
+			}
+		}
+	}
+	r.check(bad == "", rule, "line-text", p.pos(f.Pos()), "the serialised lines reach the output by concatenation only", "the assembled output line is passed through "+bad+": styled and unstyled output differ by more than escape sequences (the reset sequence shields trailing blanks)")
+}
